@@ -1,5 +1,11 @@
 package runtime
 
-import "github.com/google/mtail/internal/metrics"
+import (
+	"github.com/google/mtail/internal/metrics"
+	"github.com/google/mtail/internal/runtime/vm"
+)
 
-func init() { metrics.VerifYield = verifYieldAny }
+func init() {
+	metrics.VerifYield = verifYieldAny
+	vm.VerifPreempt = verifPreemptPoint
+}
